@@ -182,7 +182,7 @@ func (root *Schema) Resolve(opts *ResolveOptions) (*Resolved, error) {
 		}
 	}
 
-	resolved, err := r.resolve(root, base)
+	resolved, err := r.resolve(root, base, nil)
 	if err != nil {
 		return nil, err
 	}
@@ -204,11 +204,17 @@ type resolver struct {
 	loaded map[string]*Resolved
 }
 
-func (r *resolver) resolve(s *Schema, baseURI *url.URL) (*Resolved, error) {
+// resolve resolves s, which was loaded from baseURI.
+// If s was loaded because referrer refers to it and s does not declare a $schema,
+// it is read under the referrer's draft.
+func (r *resolver) resolve(s *Schema, baseURI *url.URL, referrer *Resolved) (*Resolved, error) {
 	if baseURI.Fragment != "" {
 		return nil, fmt.Errorf("base URI %s must not have a fragment", baseURI)
 	}
 	rs := newResolved(s)
+	if s.Schema == "" && referrer != nil {
+		rs.draft = referrer.draft
+	}
 
 	if err := s.check(rs.resolvedInfos); err != nil {
 		return nil, err
@@ -546,11 +552,9 @@ func (r *resolver) resolveRef(rs *Resolved, s *Schema, ref string) (_ *Schema, d
 			if err != nil {
 				return nil, "", fmt.Errorf("loading %s: %w", fraglessRefURI, err)
 			}
-			// Check if referenced schema has $schema defined. If not it should inherit the resolved
-			if ls.Schema == "" {
-				ls.Schema = s.Schema
-			}
-			lrs, err := r.resolve(ls, fraglessRefURI)
+			// If the referenced schema does not declare a $schema, it inherits the draft of the
+			// document that refers to it (without modifying the loaded schema).
+			lrs, err := r.resolve(ls, fraglessRefURI, rs)
 			if err != nil {
 				return nil, "", err
 			}
